@@ -308,7 +308,7 @@ def check(case):
 
 
 def parts(tier):
-    return [Part("relations", strategy=_case(), check=check, n={"quick": 2400, "thorough": 40000})]
+    return [Part("relations", strategy=_case(), check=check, n={"quick": 2400, "thorough": 120000})]
 
 
 MANIFEST = {
